@@ -444,6 +444,43 @@ func run(tb ev.TB, c readerCase) (labels []string) {
 				if _, inModel := everStored[s.Offset]; !inModel {
 					lab["setoffset_into_hole"] = true
 				}
+			case "setoffset-race":
+				// SetOffset arrives while a FetchMessage call is in progress; the call may still return a message of the old
+				// position (it started before), the reader's position afterwards is the new one: a SetOffset to "just after
+				// that message" must take effect
+				type fr struct {
+					m   kafka.Message
+					err error
+				}
+				ch := make(chan fr, 1)
+				fctx, fcancel := context.WithTimeout(context.Background(), 2*time.Second)
+				go func() { m, err := fetch(fctx); ch <- fr{m, err} }()
+				time.Sleep(time.Duration(s.N) * time.Microsecond)
+				if err := setOffset(s.Offset); err != nil {
+					fcancel()
+					fail("c02/setoffset-error", "SetOffset(%d): %v", s.Offset, err)
+					panic(stop{})
+				}
+				res := <-ch
+				fcancel()
+				lab["setoffset_during_fetch"] = true
+				next = s.Offset
+				if res.err == nil {
+					if old, was := everStored[res.m.Offset]; !was {
+						fail("c02/unexpected-delivery", "FetchMessage racing with SetOffset(%d) returned offset %d, which was never stored", s.Offset, res.m.Offset)
+						panic(stop{})
+					} else if d := diffMessage(res.m, old); d != "" {
+						fail("c02/content", "offset %d: delivered message differs from the stored record: %s", res.m.Offset, d)
+						panic(stop{})
+					}
+					target := res.m.Offset + 1
+					if err := setOffset(target); err != nil {
+						fail("c02/setoffset-error", "SetOffset(%d): %v", target, err)
+						panic(stop{})
+					}
+					next = target
+					count++
+				}
 			case "append":
 				cl.AppendBatches(topic, 0, s.Layout.Batches...)
 				for _, l := range s.Layout.Labels {
@@ -545,7 +582,11 @@ func genCase(t *rapid.T) readerCase {
 			if c.UseConn {
 				continue
 			}
-			c.Steps = append(c.Steps, step{Op: "setoffset", Offset: o.Start + int64(rapid.IntRange(0, int(end-o.Start)).Draw(t, "setOff"))})
+			st := step{Op: "setoffset", Offset: o.Start + int64(rapid.IntRange(0, int(end-o.Start)).Draw(t, "setOff"))}
+			if rapid.Bool().Draw(t, "duringFetch") {
+				st.Op, st.N = "setoffset-race", rapid.SampledFrom([]int{0, 50, 300, 2000}).Draw(t, "raceUs")
+			}
+			c.Steps = append(c.Steps, st)
 		case 4:
 			o2 := o
 			o2.Start = end
